@@ -6,6 +6,8 @@
 // @h c06_validate_integer_nonzero tier=both
 // @h c06_validate_float tier=both
 // @h c06_validate_string tier=both
+// @h c06_validate_enum_external tier=both bounded=default-string-of-at-most-2-ASCII-bytes,enum-of-2-simple-variants
+// @needs te_support
 // @canary canary_c06_validate
 //
 // C06 -- leaf default validation (`TypeEntry::validate_value`).
@@ -185,6 +187,45 @@ h!(
     Kind::Float
 );
 h!(c06_validate_string, TypeEntryDetails::String, Kind::String);
+
+/// P1e  an externally tagged enum of simple variants accepts a string default only if it
+///      IS (exactly, case-sensitively) the wire name of one of its variants -- the value
+///      renderer matches exactly and panics otherwise.
+#[kani::proof]
+#[kani::unwind(24)]
+#[kani::stub(crate::MapType::new, crate::verif_common::stub_map_type_new)]
+#[kani::stub(crate::util::sanitize, crate::verif_common::stub_sanitize)]
+fn c06_validate_enum_external() {
+    use crate::type_entry::verif_te_support::{mk_enum, mk_variant};
+    let ts = empty_type_space();
+    let entry = mk_enum(
+        "E",
+        EnumTagType::External,
+        vec![
+            mk_variant("Ab", VariantDetails::Simple),
+            mk_variant("c", VariantDetails::Simple),
+        ],
+    );
+    let bytes: [u8; 2] = kani::any();
+    let len: usize = kani::any();
+    kani::assume(len <= 2);
+    kani::assume(bytes[0] < 0x80 && bytes[1] < 0x80);
+    let s = unsafe { core::str::from_utf8_unchecked(&bytes[..len]) };
+    let value = Value::String(String::from(s));
+    let result = entry.validate_value(&ts, &value);
+    if result.is_ok() {
+        kani::assert(
+            s == "Ab" || s == "c",
+            "[C06/P1e] a string that is not exactly a variant's wire name was accepted as an enum default",
+        );
+    }
+    kani::cover!(result.is_ok(), "[must] a variant name is accepted");
+    kani::cover!(result.is_err(), "[must] a non-member is rejected");
+    core::mem::forget(result);
+    core::mem::forget(value);
+    core::mem::forget(entry);
+    core::mem::forget(ts);
+}
 
 #[kani::proof]
 #[kani::unwind(24)]
